@@ -125,6 +125,12 @@ pub fn diff_pair(uni: &Universe, x: &dyn Subj, y: &dyn Subj, writer: &str, acc: 
         }
     }
     for s in &sigs {
+        // descriptors that C16 says nothing about (class names from the character-class families can make the derived
+        // string malformed in an undocumented way) are not a statement about the file: a release may tighten its
+        // descriptor parser without the cache format meaning anything else
+        if !super::c16::pinned_by_c16(s) {
+            continue;
+        }
         let (p, c) = (x.deobfuscate_signature(s), y.deobfuscate_signature(s));
         acc.observations += 1;
         if p != c {
@@ -213,6 +219,21 @@ pub fn run(tier: Tier) -> i32 {
         Box::new(crate::families::sorted_run_family()),
         Box::new(crate::families::r8_metadata_family()),
         Box::new(crate::families::far_apart_family(tier.thorough())),
+        // names the format stores as "absent" (empty original method names / empty obfuscated method names / an empty
+        // foreign class): outside C02's domain, but such files exist and both readers must read them alike
+        Box::new(SeqSpace::new(
+            "empty names",
+            vec![class("p.A", "a")],
+            vec![
+                method(Some((1, 3)), None, "", "", Orig::SE(10, 12), "m"),
+                method(Some((1, 3)), None, "q", "", Orig::S(20), "m"),
+                method(None, None, "", "int", Orig::None, "m"),
+                method(Some((2, 2)), Some("x.Y"), "", "", Orig::None, "m"),
+                method(None, None, "r", "", Orig::None, "n"),
+                class("p.B", "b"),
+            ],
+            3,
+        )),
         Box::new(crate::families::unicode_family()),
         Box::new(crate::families::relation_family()),
         Box::new(crate::families::giant_family()),
@@ -327,7 +348,7 @@ pub fn run(tier: Tier) -> i32 {
         level: "model_checking",
         rule: "states = mappings; transitions = write with release W in {pinned 5.5.0, current}, then parse with both releases' readers; in every state the complete query universe is answered by both readers of the same file and compared (a reader may instead reject with WrongVersion, nothing else). distinct = distinct pinned-reader answers; non-trivial = non-empty answers".into(),
         bounds: json!({"scopes": spaces.iter().map(|s| { let mut d = s.describe(); if d.get("alphabet").is_some() { d["alphabet"] = json!("see pgmc/src/e1.rs"); } d }).collect::<Vec<_>>(), "corpus_files": corpus.len(), "release_pairs": 4}),
-        assumptions: vec!["typed-trace queries use traces whose throwables are known to the file: on unknown throwables the pinned release drops the exception (defect D2, repaired in the current tree; property C08), independent of the file".into(), "'the pinned release' = the vendored snapshot /verif/pinned (src/ of commit f3fcb84, crate version 5.5.0) built with the same profile".into()],
+        assumptions: vec!["signature queries use descriptors that are valid or belong to one of C16's must-be-none kinds (for any other string no property fixes the answer, and a release may tighten its descriptor parser without the file meaning anything else)".into(), "typed-trace queries use traces whose throwables are known to the file: on unknown throwables the pinned release drops the exception (defect D2, repaired in the current tree; property C08), independent of the file".into(), "'the pinned release' = the vendored snapshot /verif/pinned (src/ of commit f3fcb84, crate version 5.5.0) built with the same profile".into()],
         trusted_base: vec!["rustc/std".into(), "vendored snapshot /verif/pinned".into()],
     };
     finish(meta, acc, &budget, &|c| recheck(c))
